@@ -424,6 +424,10 @@ func (c *Ctx) RecordBeforeApprove(prop string, s *Slashing, kind string) {
 			x, path := an.Cut(an.CutQuery{From: an.After(st), Target: func(i ssa.Instruction) bool { _, ok := i.(*ssa.Return); return ok },
 				AcceptEdge: func(b *ssa.BasicBlock, i int, a *an.Atom) bool {
 					return errNilAtom(a, errs) || exitEdges[[2]*ssa.BasicBlock{b, b.Succs[i]}]
+				},
+				AcceptInstr: func(ins ssa.Instruction) bool {
+					ci, ok := ins.(ssa.CallInstruction)
+					return ok && BlanketCall(ci, root, func(k *ssa.Const) bool { return !an.IsConstInt(k, s.APPROVED) })
 				}})
 			if x != nil {
 				bad++
